@@ -138,12 +138,43 @@ def check(chk):
     chk.judge(not probs, 'C27.regex', (META, '<module>', rv.lineno), 'valid_cql3_word_re = %r' % pat, '; '.join(probs))
     ivn = meta.func('is_valid_name')
     s = src(ivn)
-    rows = []
-    for p in enumerate_paths(CFG(ivn)):
-        if p.end.kind == 'return':
-            rows.append((tuple((normalise_atom(e)[0], pl != normalise_atom(e)[1]) for e, pl in p.conds), src(p.end.ast.value)))
-    want = [((('name is None', True),), 'False'), ((('name is None', False), ('name.lower() in cql_keywords_reserved', True)), 'False'),
-            ((('name is None', False), ('name.lower() in cql_keywords_reserved', False)), 'valid_cql3_word_re.match(name) is not None')]
+    # the function as a truth table over its three tests, whatever statements or boolean expression spell it
+    from ..sem import resolve as _res27
+    ATOMS = {'name is None': ('A', False), 'name.lower() in cql_keywords_reserved': ('B', False),
+             'valid_cql3_word_re.match(name) is None': ('C', True), 'valid_cql3_word_re.match(name)': ('C', False)}
+
+    def _ev(e, asg):
+        e = _res27(ivn, e)
+        if isinstance(e, ast.Constant) and isinstance(e.value, bool):
+            return e.value
+        if isinstance(e, ast.BoolOp):
+            vals = [_ev(v, asg) for v in e.values]
+            return all(vals) if isinstance(e.op, ast.And) else any(vals)
+        if isinstance(e, ast.Call) and isinstance(e.func, ast.Name) and e.func.id == 'bool' and len(e.args) == 1:
+            return _ev(e.args[0], asg)
+        k, flip = normalise_atom(e)
+        if k not in ATOMS:
+            raise KeyError(k)
+        nm, neg = ATOMS[k]
+        return (asg[nm] != neg) != flip
+    rows = 'ok'
+    try:
+        import itertools as _it27
+        for a_, b_, c_ in _it27.product((False, True), repeat=3):
+            asg = {'A': a_, 'B': b_, 'C': c_}
+            got = None
+            for p in enumerate_paths(CFG(ivn)):
+                if p.end.kind != 'return':
+                    continue
+                if all(_ev(e, asg) == pl for e, pl in p.conds):
+                    got = _ev(p.end.ast.value, asg)
+                    break
+            if got is not ((not a_) and (not b_) and c_):
+                rows = 'name is None=%s reserved=%s bare-word=%s -> %s' % (a_, b_, c_, got)
+                break
+    except KeyError as ex_:
+        rows = 'unrecognised test %s' % ex_
+    want = 'ok'
     chk.judge(rows == want, 'C27.bare', ivn, 'is_valid_name: not None, lower-cased name not reserved, regex match', 'is_valid_name table changed: %s' % rows)
     men = meta.func('maybe_escape_name')
     rows = [(p.cond_text(), src(p.end.ast.value)) for p in enumerate_paths(CFG(men)) if p.end.kind == 'return']
